@@ -66,6 +66,14 @@ def generate(outdir):
         path = os.path.join(outdir, 'Gen_%s.v' % mod.name)
         if not (os.path.exists(path) and open(path).read() == txt):
             open(path, 'w').write(txt)
+    from . import fragments
+    try:
+        txt = fragments.generate(load('solver'), util)
+        path = os.path.join(outdir, 'Gen_solver.v')
+        if not (os.path.exists(path) and open(path).read() == txt):
+            open(path, 'w').write(txt)
+    except Untranslatable as ex:
+        allf.append(('solver', 'fragments', str(ex)))
     from . import tables
     global _ntables
     txt, _ntables = tables.generate(load)
@@ -79,7 +87,7 @@ _ntables = 0
 
 
 def count_functions():
-    return len(spec.UTIL_FUNCS) + len(spec.MODEL_FUNCS) + len(spec.CONTROLLER_FUNCS)
+    return len(spec.UTIL_FUNCS) + len(spec.MODEL_FUNCS) + len(spec.CONTROLLER_FUNCS) + 3
 
 
 def count_tables():
